@@ -43,16 +43,26 @@ Definition d_event : dec event :=
   else if beq k (s2b "brem") then dlet li := d_nat in dlet a := d_bytes in d_ret (EvBackendRemove li a)
   else (fun _ => None).
 
+(* pc_waits: (event index, milliseconds the driver sleeps before that event): real time passing, for the histories that
+   let dialog pins expire; absent in most cases *)
 Record proxy_case := { pc_cfg : cfg; pc_tcp_listeners : list (bytes * Z); pc_udp_endpoints : list (bytes * Z);
-                       pc_events : list event }.
-(* cfg, then driver-only tokens (yaml text, dynamic host names), peers, events *)
+                       pc_events : list event; pc_waits : list (nat * Z) }.
+(* the optional tail of a case: "waits" n {index ms}.. (in judge mode the observation follows the case: it never
+   starts with that word) *)
+Definition d_waits : dec (list (nat * Z)) :=
+  fun l => match l with
+           | t :: r => if beq t (s2b "waits") then d_list (d_pair d_nat d_int) r else Some ([], l)
+           | [] => Some ([], [])
+           end.
+(* cfg, then driver-only tokens (yaml text, dynamic host names), peers, events, optionally the waits *)
 Definition d_proxy_case : dec proxy_case :=
   dlet c := d_cfg in
   dlet _ := d_bytes in dlet _ := d_list d_bytes in
   dlet tl := d_list (d_pair d_bytes d_int) in
   dlet ue := d_list (d_pair d_bytes d_int) in
   dlet evs := d_list d_event in
-  d_ret {| pc_cfg := c; pc_tcp_listeners := tl; pc_udp_endpoints := ue; pc_events := evs |}.
+  dlet ws := d_waits in
+  d_ret {| pc_cfg := c; pc_tcp_listeners := tl; pc_udp_endpoints := ue; pc_events := evs; pc_waits := ws |}.
 
 (* the branch the proxy generates while handling event number e: fixed-width stand-in for the
    random one ("z9hG4bK" + 12 characters); the harness maps the real ones onto it *)
@@ -80,15 +90,19 @@ Definition newly_closed (before after : list conn) : list nat :=
   flat_map (fun c => if (negb (cn_open c) && conn_open before (cn_id c))%bool then [cn_id c] else []) after.
 
 Definition ms : Z := 1000000.
-Fixpoint run_events (c : cfg) (ue : list (bytes * Z)) (e : nat) (st : state) (evs : list event) : list bytes :=
+(* the instant of event e (ns): one millisecond per event, plus everything the driver slept before it *)
+Definition waited (ws : list (nat * Z)) (e : nat) : Z :=
+  fold_left (fun z iw => if Nat.leb (fst iw) e then z + snd iw else z) ws 0.
+Definition time_of (ws : list (nat * Z)) (e : nat) : Z := (Z.of_nat e + waited ws e) * ms.
+Fixpoint run_events (c : cfg) (ue : list (bytes * Z)) (ws : list (nat * Z)) (e : nat) (st : state) (evs : list event) : list bytes :=
   match evs with
   | [] => []
   | ev :: r =>
-      match proxy_step current_fixes c (Z.of_nat e * ms) (branch_of e) st ev with
+      match proxy_step current_fixes c (time_of ws e) (branch_of e) st ev with
       | Ok (st', outs) =>
           e_list e_output (filter (visible ue) outs)
           ++ e_list (fun n => [e_nat n]) (newly_closed (st_conns st) (st_conns st'))
-          ++ run_events c ue (S e) st' r
+          ++ run_events c ue ws (S e) st' r
       | Err => [s2b "err"]
       | Panic => [s2b "panic"]
       end
@@ -96,6 +110,6 @@ Fixpoint run_events (c : cfg) (ue : list (bytes * Z)) (e : nat) (st : state) (ev
 
 Definition run_proxy (args : list bytes) : list bytes :=
   match run_dec d_proxy_case args with
-  | Some pc => run_events (pc_cfg pc) (pc_udp_endpoints pc) 0 (init_state (pc_cfg pc) 0 (pc_tcp_listeners pc)) (pc_events pc)
+  | Some pc => run_events (pc_cfg pc) (pc_udp_endpoints pc) (pc_waits pc) 0 (init_state (pc_cfg pc) 0 (pc_tcp_listeners pc)) (pc_events pc)
   | None => [s2b "decode-error"]
   end.
